@@ -109,7 +109,9 @@ def install(world):
     for cname, (rec, fields) in IR_FIELDS.items():
         cls = getattr(ct, cname)
         slots = [s for s in cls.__slots__ if s != '_hash']
-        if list(fields) != slots:
+        if set(fields) != set(slots):
+            # a renamed / added / removed field changes what the contracts talk about: the sidecar must follow.
+            # (a mere reordering is harmless for the matcher; constructor/pickle order is C15.O4's obligation)
             raise RuntimeError(f'IR sort {cname}: __slots__ {slots} differ from the sidecar field list {list(fields)}')
         for f, t in fields.items():
             if f not in rec.fields:
